@@ -32,7 +32,8 @@ impl Hook {
     pub fn rewind(&self, session_id: &str, checkpoint_id: &str) -> Result<CheckpointRewindRecord, String> { unimplemented!() }
 }
 pub struct ToolRunner { pub checkpoint_hook: Option<Hook> }
-// which files an invocation can change (Patch::affected_paths is proved in c14_checkpoint; JSON args not under contract)
+// which files an invocation can change: this contract of files_for_invocation is PROVED in unit c14_files against a defined files_of
+// (write: the path argument verbatim; apply_patch: affected_paths of the parsed patch); here it is used modularly
 pub uninterp spec fn files_of(inv: ToolInvocation) -> Option<Seq<PathBuf>>;
 #[verifier::external_body]
 pub fn files_for_invocation(invocation: &ToolInvocation) -> (r: Result<Option<Vec<PathBuf>>, String>)
